@@ -162,6 +162,24 @@ def check_multiset(ctx, centre, counter, limit=400, big=False):
                           {'order': od, 'msg': o['msg']})
             return
         groups.append(('ctor %s' % (list(od),), o['ok']))
+        if len(groups) % 5 == 1 and not big:
+            # the same peripherals as a tuple, and as a GENERATOR during whose
+            # consumption other groups are constructed (naming is re-entrant)
+            def lazy(seq):
+                for x in seq:
+                    Group(None, 'O', ['H', x, 'C'])
+                    Group.parse(None, 'C(H)2(%s)' % x)
+                    yield x
+            for lab, arg in (('tuple', tuple(od)), ('generator', lazy(od))):
+                o2 = observe(Group, None, centre, arg)
+                ctx.evals()
+                if 'exc' in o2:
+                    ctx.violation('Group(...) raised %s for peripherals given '
+                                  'as a %s' % (o2['exc'], lab), case,
+                                  {'order': od, 'msg': o2['msg']})
+                    return
+                groups.append(('ctor from a %s %s' % (lab, list(od)),
+                               o2['ok']))
         if big:
             continue
         for sp in spellings(od):
